@@ -13,8 +13,9 @@ from __future__ import annotations
 
 import ast
 
-from ..cfg import ENTRY, EXIT
-from ..loader import AnalysisError, dotted, norm, walk_no_nested
+from ..cfg import ENTRY, EXIT, header_parts
+from ..flow import Defs, inline_predicates, iterations, nnf, reordered
+from ..loader import FuncInfo, dotted, norm, walk_no_nested
 from ..report import Ctx
 from ..selftest import Mutant
 from . import kinds_driver
@@ -37,14 +38,15 @@ DECLINED = [
 KIND_MODULES = ("pipefunc.map._run", "pipefunc.map._shapes", "pipefunc.map._run_info", "pipefunc.map._mapspec", "pipefunc.map._storage_array._base")
 
 
-def check(ctx: Ctx) -> None:  # noqa: C901, PLR0915
-    P = ctx.prog
-    # ------------------------------------------------------------ 1 rank-domain
+def rule_rank_domain(ctx: Ctx) -> None:
     findings, stats = kinds_driver.analyse(ctx, KIND_MODULES)
     kinds_driver.emit(ctx, "1-rank-domain", findings, 60)
     ctx.note(f"kind analysis: {stats}")
 
-    # ------------------------------------------------------------ 2 foreign-key
+
+
+def rule_foreign_key(ctx: Ctx) -> None:  # noqa: C901
+    P = ctx.prog
     n2 = 0
     targets = [*P.functions_in("pipefunc._pipeline._mapspec"), P.func("pipefunc._pipeline._base.Pipeline._autogen_mapspec_axes")]
     for fn in targets:
@@ -74,95 +76,133 @@ def check(ctx: Ctx) -> None:  # noqa: C901, PLR0915
                 ctx.add("2-foreign-key", fn, sub, guarded, f"`{d}[{var}]` is read under `if {var} in {d}`" if guarded else
                         f"`{d}[{var}]`: `{var}` iterates `{norm(loop.iter)}`, not `{d}`; a valid spec whose name is absent from `{d}` is refused with KeyError at construction", key=f"{d}[{var}] in {fn.name}")
     ctx.floor("2-foreign-key", n2, 1)
-    fr = P.func("pipefunc._pipeline._mapspec.find_non_root_axes")
-    ok = "if spec.name not in non_root_inputs" in norm(fr.node) and "non_root_inputs[spec.name] = spec.rank * [None]" in norm(fr.node)
-    ctx.add("2-foreign-key", fr, fr.node, ok, "an entry is created before it is indexed" if ok else "find_non_root_axes indexes an entry it has not created", key="created-first")
-    cm = P.func("pipefunc._pipeline._mapspec.create_missing_mapspecs")
-    ok = "missing: set[str] = non_root_inputs.keys() & outputs_without_mapspec.keys()" in norm(cm.node) and "for p in missing" in norm(cm.node)
-    ctx.add("2-foreign-key", cm, cm.node, ok, "only names present in both mappings are used as keys" if ok else "create_missing_mapspecs indexes with names not known to be in both mappings", key="intersection")
 
-    # ------------------------------------------------------------ 3 whole-arrays
+
+def _materialising(cfg, name: str) -> set[int]:
+    """CFG nodes after which the dict `name` holds arrays, not storage handles."""
+    def hit(s: ast.AST) -> bool:
+        for part in header_parts(s):
+            for c in ast.walk(part):
+                if isinstance(c, ast.Call) and dotted(c.func) == "_load_arrays" and c.args and norm(c.args[0]) == name:
+                    return True
+            if isinstance(part, ast.Assign) and any(norm(t) == name for t in part.targets) and "_maybe_load_array(" in norm(part.value):
+                return True
+        return False
+    return set(cfg.nodes(hit))
+
+
+def _mapped_decision(ctx: Ctx, f: FuncInfo, mapped_calls: tuple[str, ...]) -> str | None:
+    """nnf of the condition under which `f` takes its mapped branch (helper predicates inlined)."""
+    cfg = ctx.cfg(f)
+    nodes = cfg.nodes(lambda s: not isinstance(s, (ast.If, ast.For, ast.While)) and any(isinstance(c, ast.Call) and dotted(c.func) in mapped_calls for c in ast.walk(s)))
+    if not nodes:
+        return None
+    parts = []
+    for test, truth in cfg.controls(nodes[0]):
+        t = inline_predicates(ctx, f, Defs(f).resolve(test))
+        if "mapspec" in norm(t):
+            parts.append(nnf(t, neg=not truth))
+    return " and ".join(parts) if parts else None
+
+
+def rule_whole_arrays(ctx: Ctx) -> None:
+    P = ctx.prog
     sk = P.func(f"{RUN}._select_kwargs")
     cfg = ctx.cfg(sk)
-    la = set(cfg.nodes(lambda s: isinstance(s, ast.Expr) and isinstance(s.value, ast.Call) and dotted(s.value.func) == "_load_arrays" and norm(s.value.args[0]) == "selected"))
-    ok = bool(la) and cfg.must_pass(ENTRY, EXIT, la, normal_only=True)
-    ctx.add("3-whole-arrays", sk, sk.node, ok, "unsliced arguments of a mapped call are materialised before they are returned" if ok else "_select_kwargs can hand storage handles (not arrays) to the user function", key="select-loads")
-    src = norm(sk.node)
+    d = Defs(sk)
+    rets = cfg.nodes(lambda s: isinstance(s, ast.Return) and s.value is not None)
+    for r in rets:
+        v = cfg.stmt[r].value
+        if isinstance(v, ast.Name):
+            la = _materialising(cfg, v.id)
+            ok = bool(la) and cfg.must_pass(ENTRY, r, la, normal_only=True)
+            wp = None if ok else cfg.witness_path(ENTRY, r, la)
+            ctx.add("3-whole-arrays", sk, cfg.stmt[r], ok, "unsliced arguments of a mapped call are materialised before they are returned" if ok else
+                    f"`{v.id}` is returned on a path that never materialises it: the user function receives storage handles instead of arrays", key="select-loads", path=cfg.describe(wp, sk.module.relpath) if wp else None)
+        else:
+            t = norm(d.resolve(v))
+            ctx.tri("3-whole-arrays", sk, cfg.stmt[r], "_maybe_load_array(" in t, False, "returned arguments are materialised", "", f"return `{t[:50]}` not recognised", key="select-loads")
     ik_calls = [c for c in ast.walk(sk.node) if isinstance(c, ast.Call) and isinstance(c.func, ast.Attribute) and c.func.attr == "input_keys"]
-    ok = len(ik_calls) == 1 and len(ik_calls[0].args) == 2 and norm(ik_calls[0].args[1]) == "index" and "normalized_keys = {k: v[0] if len(v) == 1 else v for k, v in input_keys.items()}" in src \
-        and "selected = {k: v[normalized_keys[k]] if k in normalized_keys else v for k, v in kwargs.items()}" in src
-    ctx.add("3-whole-arrays", sk, sk.node, ok, "each mapped argument is sliced with its own input key, all others pass whole" if ok else "the slicing of mapped arguments changed (keys, or which arguments are sliced)", key="slicing")
+    idx = [p for p in sk.param_names() if p == "index"]
+    ctx.tri("3-whole-arrays", sk, ik_calls[0] if ik_calls else sk.node, bool(ik_calls) and bool(idx) and all(len(c.args) == 2 and norm(d.resolve(c.args[1])) == "index" for c in ik_calls), False,
+            "mapped arguments are sliced with the keys MapSpec.input_keys gives for this index", "", "input_keys(...) call not recognised", key="slicing")
     es = P.func(f"{RUN}._execute_single")
     cfg = ctx.cfg(es)
-    la = cfg.nodes(lambda s: isinstance(s, ast.Expr) and isinstance(s.value, ast.Call) and dotted(s.value.func) == "_load_arrays" and norm(s.value.args[0]) == "kwargs")
-    runs = cfg.nodes(lambda s: isinstance(s, ast.Return) and "_get_or_set_cache" in norm(s))
-    ok = bool(la) and bool(runs) and all(cfg.dominates(la[0], r) for r in runs)
-    ctx.add("3-whole-arrays", es, cfg.stmt[la[0]] if la else es.node, ok, "a function without MapSpec receives whole arrays" if ok else "_execute_single calls the function with storage handles", key="single-loads")
+    kw = [p for p in es.param_names() if "kwargs" in p]
+    if kw:
+        la = _materialising(cfg, kw[0])
+        runs = cfg.nodes(lambda s: not isinstance(s, (ast.If, ast.For)) and any(isinstance(c, ast.Call) and dotted(c.func) in ("_get_or_set_cache", "_run_iteration") or (isinstance(c, ast.Call) and any(k.arg is None and norm(k.value) == kw[0] for k in c.keywords)) for c in ast.walk(s)))
+        ok = bool(la) and bool(runs) and all(any(cfg.dominates(x, r) for x in la) for r in runs)
+        ctx.tri("3-whole-arrays", es, cfg.stmt[runs[0]] if runs else es.node, ok, bool(runs) and not ok, "a function without MapSpec receives whole arrays",
+                f"_execute_single runs the function without materialising `{kw[0]}` first: it receives storage handles", "the call of the function was not found", key="single-loads")
     ml = P.func(f"{RUN}._maybe_load_array")
-    ok = "isinstance(x, StorageBase)" in norm(ml.node) and "return x.to_array()" in norm(ml.node)
-    ctx.add("3-whole-arrays", ml, ml.node, ok, "storage handles become arrays via to_array()" if ok else "_maybe_load_array changed", key="to-array")
+    t = norm(ml.node)
+    ctx.tri("3-whole-arrays", ml, ml.node, "StorageBase" in t and ".to_array()" in t, ".to_array()" not in t, "storage handles become arrays via to_array()", "_maybe_load_array never calls to_array(): handles are passed on", key="to-array")
     lar = P.func(f"{RUN}._load_arrays")
-    ok = "for k, v in kwargs.items()" in norm(lar.node) and "kwargs[k] = _maybe_load_array(v)" in norm(lar.node)
-    ctx.add("3-whole-arrays", lar, lar.node, ok, "every argument is materialised" if ok else "_load_arrays skips arguments", key="load-all")
-    rip = P.func(f"{RUN}._run_iteration_and_process")
-    src = norm(rip.node)
-    ok = "selected = _select_kwargs_and_eval_resources(func, kwargs, shape, shape_mask, index)" in src and "output = _run_iteration(func, selected, cache)" in src and "outputs = _pick_output(func, output)" in src
-    ctx.add("3-whole-arrays", rip, rip.node, ok, "element run: select -> call -> pick outputs" if ok else "_run_iteration_and_process pipeline changed", key="element-pipeline")
-    sf = P.func(f"{RUN}._submit_func")
-    tests = [norm(s.test) for s in walk_no_nested(sf.node) if isinstance(s, ast.If)]
-    ok = "func.mapspec and func.mapspec.inputs" in tests
-    ctx.add("3-whole-arrays", sf, sf.node, ok, "mapped iff the MapSpec has inputs; otherwise called once" if ok else "the mapped / single-call decision changed", key="map-or-single")
-    for q in (f"{RUN}._process_task", f"{RUN}._process_task_async"):
+    its = [it for it in iterations(lar.node) if ".items()" in norm(it["iter"]) or norm(it["iter"]) in lar.param_names()]
+    ctx.tri("3-whole-arrays", lar, lar.node, bool(its) and not any(it["filters"] for it in its) and "_maybe_load_array(" in norm(lar.node), False, "every argument is materialised", "", "_load_arrays not recognised", key="load-all")
+    decisions = {}
+    for q, calls in ((f"{RUN}._submit_func", ("_prepare_submit_map_spec",)), (f"{RUN}._process_task", ("_output_from_mapspec_task",)), (f"{RUN}._process_task_async", ("_output_from_mapspec_task",))):
         f = P.func(q)
-        tests = [norm(s.test) for s in walk_no_nested(f.node) if isinstance(s, ast.If)]
-        ok = "func.mapspec and func.mapspec.inputs" in tests
-        ctx.add("3-whole-arrays", f, f.node, ok, "processing uses the same mapped / single decision as submission" if ok else "submission and processing disagree about which functions are mapped", key=f"map-or-single {f.name}")
+        decisions[f] = _mapped_decision(ctx, f, calls)
+    ref_f = next(iter(decisions))
+    for f, dec in decisions.items():
+        ref = decisions[ref_f]
+        ctx.tri("3-whole-arrays", f, f.node, dec is not None and ref is not None and dec == ref, dec is not None and ref is not None and dec != ref,
+                f"mapped iff `{dec}` - the same decision in submission and processing", f"{f.name} treats a function as mapped iff `{dec}` but {ref_f.name} iff `{ref}`: a task is unpacked in the wrong form", "mapped / single decision not recognised", key=f"map-or-single {f.name}")
 
-    # ------------------------------------------------------------ 4 topological
-    for q, it in ((f"{RUN}.run_map", "pipeline.topological_generations.function_lists"), (f"{RUN}.run_map_async._run_pipeline", "pipeline.topological_generations.function_lists"),
-                  ("pipefunc.map.adaptive.create_learners", "pipeline.topological_generations.function_lists")):
+
+def _iter_sources(f: FuncInfo, words: tuple[str, ...]) -> list[tuple[ast.AST, str]]:
+    d = Defs(f)
+    return [(it["node"], norm(d.resolve(it["iter"]))) for it in iterations(f.node) if any(w in norm(d.resolve(it["iter"])) for w in words)]
+
+
+def rule_topological(ctx: Ctx) -> None:
+    P = ctx.prog
+    for q in (f"{RUN}.run_map", f"{RUN}.run_map_async._run_pipeline", "pipefunc.map.adaptive.create_learners"):
         f = P.func(q)
-        loops = [lp for lp in walk_no_nested(f.node) if isinstance(lp, ast.For) and ("generation" in norm(lp.iter) or "functions" in norm(lp.iter))]
-        ok = bool(loops) and any(norm(lp.iter) == it for lp in loops)
-        ctx.add("4-topological", f, loops[0] if loops else f.node, ok, "iterates topological generations" if ok else f"`{norm(loops[0].iter) if loops else '?'}` is not the topological generation order", key=f"generations {f.name}")
+        src = _iter_sources(f, ("generation", "functions"))
+        topo = [s_ for s_ in src if "topological_generations" in s_[1] or "sorted_functions" in s_[1]]
+        listing = [s_ for s_ in src if s_[1].rstrip(")]").endswith(".functions") and "sorted_functions" not in s_[1]]
+        ctx.tri("4-topological", f, (listing or topo or [(f.node, "")])[0][0], bool(topo) and not listing, bool(listing), "iterates topological generations",
+                f"`{listing[0][1] if listing else ''}` is the listing order, not the topological order: a consumer can run before its producer", "iteration over the functions not recognised", key=f"generations {f.name}")
     ms = P.func("pipefunc.map._shapes.map_shapes")
-    src = norm(ms.node)
-    ok = "mapspec_funcs = [f for f in pipeline.sorted_functions if f.mapspec]" in src and "for func in mapspec_funcs" in src
-    ctx.add("4-topological", ms, ms.node, ok, "shapes are inferred in topological order (producers before consumers)" if ok else
-            "map_shapes no longer walks pipeline.sorted_functions: a consumer listed before its producer finds no input shape and a valid pipeline is refused", key="map-shapes-order")
+    src = _iter_sources(ms, ("functions",))
+    topo = [s_ for s_ in src if "sorted_functions" in s_[1] or "topological_generations" in s_[1]]
+    listing = [s_ for s_ in src if "pipeline.functions" in s_[1]]
+    ctx.tri("4-topological", ms, (listing or topo or [(ms.node, "")])[0][0], bool(topo) and not listing, bool(listing), "shapes are inferred in topological order (producers before consumers)",
+            "map_shapes walks pipeline.functions (listing order): a consumer listed before its producer finds no input shape and a valid pipeline is refused", "iteration over the functions not recognised", key="map-shapes-order")
     sfs = P.func("pipefunc._pipeline._base.Pipeline.sorted_functions")
-    ok = "for gen in self.topological_generations.function_lists for f in gen" in norm(sfs.node)
-    ctx.add("4-topological", sfs, sfs.node, ok, "sorted_functions flattens the generations" if ok else "sorted_functions is no longer derived from topological_generations", key="sorted-functions")
-    ok = "input_shapes = {p: shapes[p] for p in func.mapspec.input_names if p in shapes}" in src and "func.mapspec.shape(input_shapes, output_shapes)" in src and "shapes[func.output_name] = output_shape" in src
-    ctx.add("4-topological", ms, ms.node, ok, "each function's output shape feeds its consumers" if ok else "map_shapes no longer propagates output shapes to consumers", key="propagation")
-    ok = "for output_name in func.output_name" in src and "shapes[output_name] = output_shape" in src and "masks[output_name] = mask" in src
-    ctx.add("4-topological", ms, ms.node, ok, "every name of a tuple output gets the shape and mask" if ok else "tuple outputs do not get shapes per name", key="tuple-shapes")
-    ok = "shapes: dict[OUTPUT_TYPE, tuple[int, ...]] = {p: array_shape(inputs_with_defaults[p], p) for p in input_parameters if p in pipeline.mapspec_names}" in src and "inputs_with_defaults = pipeline.defaults | inputs" in src
-    ctx.add("4-topological", ms, ms.node, ok, "input shapes come from the supplied inputs (over defaults) of mapped root arguments" if ok else "root input shapes are taken from other sources", key="root-shapes")
+    ctx.tri("4-topological", sfs, sfs.node, "topological_generations" in norm(sfs.node), False, "sorted_functions flattens the generations", "", "sorted_functions not recognised", key="sorted-functions")
+    stores = [s_ for s_ in ast.walk(ms.node) if isinstance(s_, ast.Assign) and any(isinstance(t, ast.Subscript) and norm(t.value) == "shapes" for t in s_.targets)]
+    per_name = [it for it in iterations(ms.node) if "output_name" in norm(it["iter"]) and any(isinstance(x, ast.Assign) and any(isinstance(t, ast.Subscript) and norm(t.value) == "shapes" for t in x.targets) for x in ast.walk(it["node"]))]
+    ctx.tri("4-topological", ms, ms.node, bool(stores) and bool(per_name), False, "every name of a tuple output gets the inferred shape, which then feeds the consumers", "", "propagation of output shapes not recognised", key="propagation")
 
-    # ------------------------------------------------------------ 5 outputs
-    po = P.func(f"{RUN}._pick_output")
-    ok = "for output_name in at_least_tuple(func.output_name)" in norm(po.node) and "func.output_picker(output, output_name) if func.output_picker is not None else output" in norm(po.node)
-    ctx.add("5-outputs", po, po.node, ok, "one picked value per output name, in output-name order" if ok else "_pick_output changed", key="pick")
-    ua = P.func(f"{RUN}._update_array")
-    ok = "for array, _output in zip(arrays, outputs)" in norm(ua.node)
-    ctx.add("5-outputs", ua, ua.node, ok, "arrays and picked outputs are paired in the same order" if ok else "_update_array pairs arrays and outputs differently", key="pair-arrays")
-    for q in (f"{RUN}._prepare_submit_map_spec", f"{RUN}._output_from_mapspec_task"):
+
+def rule_outputs(ctx: Ctx) -> None:
+    P = ctx.prog
+    for q, what in ((f"{RUN}._pick_output", "one picked value per output name"), (f"{RUN}._prepare_submit_map_spec", "arrays listed per output name"), (f"{RUN}._output_from_mapspec_task", "arrays listed per output name"),
+                    (f"{RUN}._init_result_arrays", "one result array per output name"), (f"{RUN}._to_result_dict", "one Result per output name"), (f"{RUN}._dump_single_output", "unmapped tuple outputs are stored per name")):
         f = P.maybe_func(q)
         if f is None:
+            ctx.add("5-outputs", q, "", None, f"UNDECIDED: {q} not found", key=f"order {q.rsplit('.', 1)[-1]}")
             continue
-        ok = "[store[name] for name in at_least_tuple(func.output_name)]" in norm(f.node)
-        ctx.add("5-outputs", f, f.node, ok, "arrays listed in output-name order" if ok else "arrays are not listed in output-name order", key=f"arrays-order {f.name}")
-    ira = P.maybe_func(f"{RUN}._init_result_arrays")
-    if ira is not None:
-        ok = "np.empty(prod(shape), dtype=object) for _ in at_least_tuple(output_name)" in norm(ira.node)
-        ctx.add("5-outputs", ira, ira.node, ok, "one flat object array of the FULL size per output" if ok else "_init_result_arrays changed", key="result-arrays")
-    tr = P.func(f"{RUN}._to_result_dict")
-    ok = "for output_name, _output in zip(at_least_tuple(func.output_name), output)" in norm(tr.node) and "store=store[output_name]" in norm(tr.node) and "output=_output" in norm(tr.node)
-    ctx.add("5-outputs", tr, tr.node, ok, "each Result carries its own output and store" if ok else "_to_result_dict pairs names, outputs and stores differently", key="result-dict")
-    ds = P.func(f"{RUN}._dump_single_output")
-    ok = "for output_name in func.output_name" in norm(ds.node) and "_output = func.output_picker(output, output_name)" in norm(ds.node) and "_single_dump_single_output(_output, output_name, store)" in norm(ds.node)
-    ctx.add("5-outputs", ds, ds.node, ok, "unmapped tuple outputs are stored per name" if ok else "_dump_single_output changed", key="single-dump")
+        d = Defs(f)
+        its = [it for it in iterations(f.node) if "output_name" in norm(d.resolve(it["iter"]))]
+        bad = [it for it in its if reordered(d.resolve(it["iter"]))]
+        ctx.tri("5-outputs", f, (bad or its or [{"node": f.node}])[0]["node"], bool(its) and not bad, bool(bad), f"{what}, in output-name order",
+                f"`{norm(bad[0]['iter']) if bad else ''}` re-orders the output names: values, arrays and names are paired by position, so outputs are stored under each other's names", "iteration over the output names not recognised", key=f"order {f.name}")
+    ua = P.func(f"{RUN}._update_array")
+    d = Defs(ua)
+    zips = [c for c in ast.walk(ua.node) if isinstance(c, ast.Call) and dotted(c.func) == "zip" and len(c.args) == 2]
+    ps = ua.param_names()
+    pair = [c for c in zips if {norm(d.resolve(a)) for a in c.args} == {"arrays", "outputs"} and {"arrays", "outputs"} <= set(ps)]
+    ctx.tri("5-outputs", ua, pair[0] if pair else ua.node, bool(pair), False, "arrays and picked outputs are paired position by position", "", "pairing of arrays and outputs not recognised", key="pair-arrays")
+
+
+def check(ctx: Ctx) -> None:
+    for rule in (rule_rank_domain, rule_foreign_key, rule_whole_arrays, rule_topological, rule_outputs):
+        ctx.run(rule)
 
 
 R, M, S, B = "pipefunc/map/_run.py", "pipefunc/_pipeline/_mapspec.py", "pipefunc/map/_shapes.py", "pipefunc/map/_storage_array/_base.py"
